@@ -142,6 +142,9 @@ class Name(Model):
 
     search_by_name = objects.where("name IS (?)")
     delete_by_module_name = objects.where("module = ?").delete_from()
+    delete_by_module_prefix = objects.where(
+        "substr(module, 1, length(?)) = ?"
+    ).delete_from()
 
 
 class Package(Model):
